@@ -200,38 +200,123 @@ End Syntaxes.
 
 Lemma rt_eval_hands_back : forall R (r : responder R) i c i',
   rt_eval r i = EContinue c i' -> i' = i.
-Proof. intros R [o|f| |] i c i' H; cbn in H; try discriminate; injection H as _ <-; reflexivity. Qed.
+Proof. intros R [o|f| | |fid f ps] i c i' H; cbn in H; try discriminate; injection H as _ <-; reflexivity. Qed.
 
 Ltac rw L := let H := fresh in pose proof L as H; unfold mk in H; rewrite H; clear H.
+
+(* ---------- explicit unmock parameter lists ---------- *)
+
+Lemma take_at_spec : forall ps i v ps',
+  take_at i ps = Some (v, ps') ->
+  nth_error ps i = Some (Some v) /\ (forall j, j <> i -> nth_error ps' j = nth_error ps j).
+Proof.
+  induction ps as [|x r IH]; intros [|i] v ps' H; cbn in H; try discriminate.
+  - destruct x as [w|]; [|discriminate]. injection H as -> <-. split; [reflexivity|].
+    intros [|j] Hj; [contradiction|reflexivity].
+  - destruct (take_at i r) as [[w r']|] eqn:E; [|discriminate]. injection H as -> <-.
+    destruct (IH i v r' E) as [H1 H2]. split; [exact H1|].
+    intros [|j] Hj; [reflexivity|]. cbn. apply H2. intros ->. apply Hj. reflexivity.
+Qed.
+
+Lemma take_at_some : forall ps i v, nth_error ps i = Some (Some v) -> exists ps', take_at i ps = Some (v, ps').
+Proof.
+  induction ps as [|x r IH]; intros [|i] v H; cbn in H; try discriminate.
+  - injection H as ->. eexists. reflexivity.
+  - destruct (IH i v H) as [r' E]. cbn. rewrite E. eexists. reflexivity.
+Qed.
+
+(* expression x is available in e and denotes a *)
+Definition avail (e : env) (x : uexpr) (a : rarg) : Prop :=
+  match x with
+  | USelf => exists s, e_self e = Some s /\ a = RSelf s
+  | UParam i => exists v, nth_error (e_params e) i = Some (Some v) /\ a = RVal v
+  end.
+
+Lemma eval_uexpr_avail : forall e x a, avail e x a ->
+  exists e1, eval_uexpr e x = Some (a, e1)
+    /\ forall y b, y <> x -> avail e y b -> avail e1 y b.
+Proof.
+  intros e [|i] a H; cbn [avail] in H.
+  - destruct H as [s [Hs ->]]. cbn [eval_uexpr move_self]. rewrite Hs. eexists. split; [reflexivity|].
+    intros [|j] b Hy Hb; [contradiction|]. exact Hb.
+  - destruct H as [v [Hv ->]]. destruct (take_at_some _ _ _ Hv) as [ps' E].
+    cbn [eval_uexpr eval_atom]. rewrite E. eexists. split; [reflexivity|].
+    intros [|j] b Hy Hb; cbn [avail with_params e_self e_params] in *; [exact Hb|].
+    destruct Hb as [w [Hw ->]]. exists w. split; [|reflexivity].
+    destruct (take_at_spec _ _ _ _ E) as [_ H2]. rewrite H2; [exact Hw|]. intros ->. apply Hy. reflexivity.
+Qed.
+
+Lemma eval_uexprs_avail : forall l e (rs : list rarg),
+  NoDup l -> Forall2 (avail e) l rs -> exists e', eval_uexprs e l = Some (rs, e').
+Proof.
+  induction l as [|x r IH]; intros e rs ND F; inversion F as [|x' a r' ar Ha Hr]; subst.
+  - eexists. reflexivity.
+  - destruct (eval_uexpr_avail e x a Ha) as [e1 [E1 Hpres]].
+    inversion ND as [|x' r' Hnin ND']; subst.
+    assert (Forall2 (avail e1) r ar) as F1.
+    { clear IH E1 ND ND' F Ha. induction Hr as [|y b r ar Hyb Hr IHr]; [constructor|].
+      constructor.
+      - apply Hpres; [|exact Hyb]. intros ->. apply Hnin. left. reflexivity.
+      - apply IHr. intros Hin. apply Hnin. right. exact Hin. }
+    destruct (IH e1 ar ND' F1) as [e' E']. cbn [eval_uexprs]. rewrite E1, E'. eexists. reflexivity.
+Qed.
+
+Lemma eval_uexprs_select : forall l args u,
+  uexprs_ok (length args) l ->
+  exists e', eval_uexprs (mk (map Some args) (Some SelfAsPassed) u) l = Some (select l args, e').
+Proof.
+  intros l args u [ND FR]. apply eval_uexprs_avail; [exact ND|].
+  unfold select. induction FR as [|x r Hx Hr IH]; [constructor|]. cbn [map]. constructor.
+  - destruct x as [|k]; cbn [avail mk e_self e_params].
+    + exists SelfAsPassed. split; reflexivity.
+    + cbn [uexpr_in_range] in Hx. exists (nth k args VImp). split; [|reflexivity].
+      rewrite nth_error_map, (nth_error_nth' args VImp Hx). reflexivity.
+  - apply IH. inversion ND; assumption.
+Qed.
 
 Section Body.
   Variable R : Type.
   Variables (cs : list pclass) (args : list aval) (resp : responder R) (st : store).
   Hypothesis HL : length args = length cs.
+  Hypothesis HW : resp_wf (length cs) resp.
 
-  Definition spec_with (sv : selfv) : outcome R :=
+  (* direct: the template has an Unmock arm *)
+  Definition spec_with (direct : bool) (sv : selfv) : outcome R :=
     let i := pack (views cs args) in
     match resp with
     | KReturn o => ([EvEval i], Returned o, st)
     | KAnswer f => ([EvEval i; EvAnswer sv args], Returned (fst (f sv args st)), snd (f sv args st))
     | KUnmock | KDefault => ([EvEval i], Reported, st)
+    | KUnmockArm fid f ps =>
+        if direct then
+          let rargs := match ps with None => RSelf sv :: map RVal args | Some l => select l args end in
+          ([EvEval i; EvReal fid rargs], Returned (fst (f rargs st)), snd (f rargs st))
+        else ([EvEval i], Reported, st)
     end.
 
   (* direct template: `match eval(self_ref, inputs) { Return(o) => o, Continue(Answer(f), pat) => f(self, params), .. }` *)
   Lemma direct_ok : forall self_ref, self_ref = SxSelf \/ self_ref = SxRefSelf ->
     exec_body (BDirect self_ref (tupled EvalParams cs) (tupled EvalPatternMutAsWildcard cs) SxSelf (untupled FnParams cs))
               (init_env args) resp st
-    = Some (spec_with SelfAsPassed).
+    = Some (spec_with true SelfAsPassed).
   Proof.
     intros self_ref Hs. unfold exec_body, init_env.
     assert (eval_target {| e_params := map Some args; e_self := Some SelfAsPassed; e_surr := None |} self_ref = Some SelfAsPassed) as ->
       by (destruct Hs; subst; reflexivity).
     rw (t_eval_params cs args (Some SelfAsPassed) None HL).
-    unfold spec_with. destruct resp as [o|f| |]; cbn [rt_eval]; try reflexivity.
-    rw (t_bind_no_mut cs args (Some SelfAsPassed) None HL).
-    cbn [move_self e_self e_params e_surr].
-    rw (t_fn_params cs args None None HL).
-    unfold apply_answer. destruct (f SelfAsPassed args st). reflexivity.
+    unfold spec_with. destruct resp as [o|f| | |fid f [l|]]; cbn [rt_eval]; try reflexivity.
+    - rw (t_bind_no_mut cs args (Some SelfAsPassed) None HL).
+      cbn [move_self e_self e_params e_surr].
+      rw (t_fn_params cs args None None HL).
+      unfold apply_answer. destruct (f SelfAsPassed args st). reflexivity.
+    - rw (t_bind_no_mut cs args (Some SelfAsPassed) None HL).
+      cbn [resp_wf] in HW. rewrite <- HL in HW.
+      destruct (eval_uexprs_select l args None HW) as [e' E]. unfold mk in E. rewrite E.
+      unfold apply_real. destruct (f (select l args) st). reflexivity.
+    - rw (t_bind_no_mut cs args (Some SelfAsPassed) None HL).
+      cbn [move_self e_self e_params e_surr].
+      rw (t_fn_params cs args None None HL).
+      unfold apply_real. destruct (f (RSelf SelfAsPassed :: map RVal args) st). reflexivity.
   Qed.
 
   (* polonius template *)
@@ -239,12 +324,12 @@ Section Body.
     exec_body (BPolonius pre SxSurr (tupled EvalParams cs) (tupled EvalPatternMutAsWildcard cs)
                          (tupled FnParams cs) (tupled EvalPatternAll cs) SxSurr (untupled FnParams cs))
               (init_env args) resp st
-    = Some (spec_with (match pre with PreMove => SelfAsPassed | PreUnpin => SelfUnpinned end)).
+    = Some (spec_with false (match pre with PreMove => SelfAsPassed | PreUnpin => SelfUnpinned end)).
   Proof.
     intros pre. unfold exec_body, init_env. cbn [run_prelude e_self e_params e_surr eval_target].
     set (sv := match pre with PreMove => SelfAsPassed | PreUnpin => SelfUnpinned end).
     rw (t_eval_params cs args None (Some sv) HL).
-    unfold spec_with. destruct resp as [o|f| |]; cbn [rt_eval]; try reflexivity;
+    unfold spec_with. destruct resp as [o|f| | |fid f ps]; cbn [rt_eval]; try reflexivity;
       rw (t_bind_no_mut cs args None (Some sv) HL);
       rw (t_fn_params_tupled cs args None (Some sv) HL);
       rw (t_bind_all cs args None (Some sv) HL); try reflexivity.
@@ -255,13 +340,13 @@ Section Body.
 End Body.
 
 Theorem forwarding : forall R (sh : shape) (args : list aval) (resp : responder R) (st : store),
-  length args = length (sh_params sh) ->
+  length args = length (sh_params sh) -> resp_wf (length (sh_params sh)) resp ->
   exec_body (gen_body sh) (init_env args) resp st = Some (forward_spec sh args resp st).
 Proof.
-  intros R sh args resp st HL. unfold gen_body, forward_spec.
+  intros R sh args resp st HL HW. unfold gen_body, forward_spec.
   destruct (sh_recv sh); cbn [receiver_of self_reference received_self].
-  1,3,4,5,6: (rewrite (direct_ok R (sh_params sh) args resp st HL) by (auto); unfold spec_with; destruct resp; reflexivity).
-  all: rewrite (polonius_ok R (sh_params sh) args resp st HL); unfold spec_with; destruct resp; reflexivity.
+  1,3,4,5,6: (rewrite (direct_ok R (sh_params sh) args resp st HL HW) by (auto); unfold spec_with; destruct resp; reflexivity).
+  all: rewrite (polonius_ok R (sh_params sh) args resp st HL HW); unfold spec_with; destruct resp; reflexivity.
 Qed.
 
 (* ---------- declaration order, position by position ---------- *)
@@ -314,7 +399,7 @@ Lemma answer_store : forall R sh args (f : answer_fn R) st,
     /\ r = fst (f (received_self (sh_recv sh)) args st)
     /\ In (EvAnswer (received_self (sh_recv sh)) args) tr.
 Proof.
-  intros R sh args f st HL. rewrite (forwarding R sh args (KAnswer f) st HL). cbn [forward_spec].
+  intros R sh args f st HL. rewrite (forwarding R sh args (KAnswer f) st HL I). cbn [forward_spec].
   eexists. eexists. split; [reflexivity|]. split; [reflexivity|]. right. left. reflexivity.
 Qed.
 
@@ -333,12 +418,12 @@ Proof.
 Qed.
 
 Lemma sync_runs_at_call : forall R sh args (resp : responder R) st,
-  deferred sh = false -> length args = length (sh_params sh) ->
+  deferred sh = false -> length args = length (sh_params sh) -> resp_wf (length (sh_params sh)) resp ->
   call_method sh args resp st = Now (Some (forward_spec sh args resp st)).
 Proof.
-  intros R sh args resp st HD HL. unfold call_method.
+  intros R sh args resp st HD HL HW. unfold call_method.
   rewrite (not_known sh (sync_never_known sh HD)). cbn [negb].
-  rewrite HD, (forwarding R sh args resp st HL). reflexivity.
+  rewrite HD, (forwarding R sh args resp st HL HW). reflexivity.
 Qed.
 
 Lemma known_refuted : forall R args (resp : responder R) st,
@@ -350,14 +435,14 @@ Proof.
 Qed.
 
 Lemma async_deferred : forall R sh args (resp : responder R) st,
-  ~ Known sh -> deferred sh = true -> length args = length (sh_params sh) ->
+  ~ Known sh -> deferred sh = true -> length args = length (sh_params sh) -> resp_wf (length (sh_params sh)) resp ->
   exists fut, call_method sh args resp st = Later fut
     /\ (forall st', await fut st' = Some (forward_spec sh args resp st'))
     /\ (forall st', drop_unpolled fut st' = ([], Reported, st')).
 Proof.
-  intros R sh args resp st HK HD HL. unfold call_method. rewrite (not_known sh HK). cbn [negb].
+  intros R sh args resp st HK HD HL HW. unfold call_method. rewrite (not_known sh HK). cbn [negb].
   rewrite HD. eexists. split; [reflexivity|]. split.
-  - intros st'. unfold await. cbn [fu_body fu_env fu_resp]. apply forwarding. exact HL.
+  - intros st'. unfold await. cbn [fu_body fu_env fu_resp]. apply forwarding; assumption.
   - intros st'. reflexivity.
 Qed.
 
@@ -376,34 +461,96 @@ Definition answers_expected {R} (resp : responder R) (n : nat) : nat :=
   match resp with KAnswer _ => n | _ => 0 end.
 
 Lemma call_and_counts : forall R sh u args (resp : responder R) st,
-  ~ Known sh -> length args = length (sh_params sh) ->
+  ~ Known sh -> length args = length (sh_params sh) -> resp_wf (length (sh_params sh)) resp ->
   exists tr res st', call_and sh u args resp st = Some (tr, res, st')
     /\ count_evals tr = (if runs sh u then 1 else 0)
     /\ count_answers tr = answers_expected resp (if runs sh u then 1 else 0).
 Proof.
-  intros R sh u args resp st HK HL. unfold call_and, runs.
+  intros R sh u args resp st HK HL HW. unfold call_and, runs.
   destruct (deferred sh) eqn:HD.
-  - destruct (async_deferred R sh args resp st HK HD HL) as [fut [-> [HA HDp]]].
+  - destruct (async_deferred R sh args resp st HK HD HL HW) as [fut [-> [HA HDp]]].
     destruct u; cbn [negb orb].
-    + rewrite HA. destruct resp; cbn [forward_spec]; do 3 eexists; (split; [reflexivity|]); split; reflexivity.
+    + rewrite HA. clear HW HA. destruct resp; cbn [forward_spec]; try destruct (receiver_of (sh_recv sh));
+        do 3 eexists; (split; [reflexivity|]); split; reflexivity.
     + rewrite HDp. do 3 eexists. split; [reflexivity|]. split; [reflexivity|]. destruct resp; reflexivity.
-  - rewrite (sync_runs_at_call R sh args resp st HD HL). cbn [negb orb].
-    destruct resp; cbn [forward_spec]; do 3 eexists; (split; [reflexivity|]); split; reflexivity.
+  - rewrite (sync_runs_at_call R sh args resp st HD HL HW). cbn [negb orb]. clear HW.
+    destruct resp; cbn [forward_spec]; try destruct (receiver_of (sh_recv sh));
+      do 3 eexists; (split; [reflexivity|]); split; reflexivity.
 Qed.
 
 Theorem once_per_await : forall R sh (resp : responder R) calls,
-  ~ Known sh ->
+  ~ Known sh -> resp_wf (length (sh_params sh)) resp ->
   Forall (fun c => length (snd (fst c)) = length (sh_params sh)) calls ->
   exists tr, run_calls sh resp calls = Some tr
     /\ count_evals tr = ran_calls sh calls
     /\ count_answers tr = answers_expected resp (ran_calls sh calls).
 Proof.
-  intros R sh resp calls HK H. induction H as [|[[u args] st] r Hc Hr IH].
+  intros R sh resp calls HK HW H. induction H as [|[[u args] st] r Hc Hr IH].
   - exists []. split; [reflexivity|]. split; [reflexivity|]. destruct resp; reflexivity.
   - destruct IH as [tr' [E [C1 C2]]]. cbn [fst snd] in Hc.
-    destruct (call_and_counts R sh u args resp st HK Hc) as [tr [res [st' [EC [D1 D2]]]]].
+    destruct (call_and_counts R sh u args resp st HK Hc HW) as [tr [res [st' [EC [D1 D2]]]]].
     exists (tr ++ tr'). cbn [run_calls]. rewrite EC, E. split; [reflexivity|].
     rewrite count_evals_app, count_answers_app, C1, C2, D1, D2.
     unfold ran_calls. cbn [filter fst]. destruct (runs sh u); cbn [length]; split; try reflexivity;
       destruct resp; reflexivity.
+Qed.
+
+(* ---------- unmock_with: which list entry belongs to which method ---------- *)
+
+Definition count_mocked (items : list bool) : nat := length (filter (fun b => b) items).
+
+(* the index of the k-th mocked method is the position of the k-th `true`: that fn item is a mocked
+   method and exactly k mocked methods stand before it *)
+Lemma method_index_spec : forall items k i,
+  method_index items k = Some i <->
+  (nth_error items i = Some true /\ count_mocked (firstn i items) = k).
+Proof.
+  induction items as [|b r IH]; intros k i.
+  - cbn. split; [discriminate|]. intros [H _]. destruct i; discriminate.
+  - destruct b; cbn [method_index].
+    + destruct k as [|k'].
+      * split.
+        -- intros H. injection H as <-. split; reflexivity.
+        -- intros [H1 H2]. destruct i as [|i']; [reflexivity|]. cbn in H2. discriminate.
+      * destruct (method_index r k') as [j|] eqn:E; cbn [option_map].
+        -- destruct (proj1 (IH k' j) E) as [H1 H2]. split.
+           ++ intros H. injection H as <-. split; [exact H1|]. unfold count_mocked. cbn. f_equal. exact H2.
+           ++ intros [H1' H2']. destruct i as [|i']; [cbn in H2'; discriminate|].
+              cbn in H1'. unfold count_mocked in H2'. cbn in H2'. injection H2' as H2'.
+              assert (method_index r k' = Some i') as E' by (apply IH; split; assumption).
+              rewrite E in E'. injection E' as ->. reflexivity.
+        -- split; [discriminate|]. intros [H1' H2']. destruct i as [|i']; [cbn in H2'; discriminate|].
+           cbn in H1'. unfold count_mocked in H2'. cbn in H2'. injection H2' as H2'.
+           assert (method_index r k' = Some i') as E' by (apply IH; split; assumption).
+           rewrite E in E'. discriminate.
+    + destruct (method_index r k) as [j|] eqn:E; cbn [option_map].
+      * destruct (proj1 (IH k j) E) as [H1 H2]. split.
+        -- intros H. injection H as <-. split; [exact H1|]. exact H2.
+        -- intros [H1' H2']. destruct i as [|i']; [cbn in H1'; discriminate|].
+           cbn in H1'. unfold count_mocked in H2'. cbn in H2'.
+           assert (method_index r k = Some i') as E' by (apply IH; split; assumption).
+           rewrite E in E'. injection E' as ->. reflexivity.
+      * split; [discriminate|]. intros [H1' H2']. destruct i as [|i']; [cbn in H1'; discriminate|].
+        cbn in H1'. unfold count_mocked in H2'. cbn in H2'.
+        assert (method_index r k = Some i') as E' by (apply IH; split; assumption).
+        rewrite E in E'. discriminate.
+Qed.
+
+(* the function a method is unmocked with is the entry written at the method's own position among ALL fn
+   items of the trait (skipped receiver-less functions count, `_` entries are not compacted away) *)
+Lemma unmock_of_spec : forall items uw k fid ps,
+  unmock_of items (Some uw) k = Some (fid, ps) <->
+  exists i, nth_error items i = Some true /\ count_mocked (firstn i items) = k /\
+            ((nth_error uw i = Some (UPath fid) /\ ps = None) \/
+             (exists l, nth_error uw i = Some (UCall fid l) /\ ps = Some l)).
+Proof.
+  intros items uw k fid ps. unfold unmock_of, get_unmock_fn. split.
+  - destruct (method_index items k) as [i|] eqn:E; [|discriminate].
+    destruct (proj1 (method_index_spec items k i) E) as [H1 H2].
+    destruct (nth_error uw i) as [[|f|f l]|] eqn:U; try discriminate; intros H; injection H as <- <-;
+      exists i; (split; [exact H1|]); (split; [exact H2|]).
+    + left. split; [exact U|reflexivity].
+    + right. exists l. split; [exact U|reflexivity].
+  - intros [i [H1 [H2 H3]]]. rewrite (proj2 (method_index_spec items k i) (conj H1 H2)).
+    destruct H3 as [[-> ->]|[l [-> ->]]]; reflexivity.
 Qed.
